@@ -17,9 +17,11 @@ A_IDX = Index("A")     # another asset class carrying the SAME symbol: contracts
 KEYS = [A, B, F1, F2, CHAIN, A_IDX]
 KEYNAMES = ["A", "B", "F1", "F2", "CHAIN", "Index(A)"]
 CLOCKS = [F1.last_trading_date - timedelta(days=1), F1.last_trading_date, F1.last_trading_date + timedelta(days=1)]
-PAIRS = [[(10.0, 10.0), (10.0, 12.0), (7.0, 8.0)],
-         [(64.0, 64.0), (64.0, 65.0), (31.0, 33.0)],
-         [(0.5, 0.5), (0.25, 0.75), (3.0, 3.0)]]
+# in every palette the first two quotes share their mid (and, like every quote here, their timestamp) but differ in bid/ask;
+# the third shares the bid of none
+PAIRS = [[(10.0, 10.0), (9.0, 11.0), (10.0, 12.0)],
+         [(64.0, 64.0), (63.0, 65.0), (31.0, 33.0)],
+         [(0.5, 0.5), (0.25, 0.75), (0.5, 3.0)]]
 
 
 _PAL = [None]
